@@ -1187,7 +1187,9 @@ static const uint8_t *unmarshal_one_fiber(
             int will_skip = !is_top || !(fiber_flags & JANET_FIBER_RESUME_NO_SKIP);
             uint32_t instr = def->bytecode[pcdiff];
             if (is_top && !fiber_resumable) will_store = will_skip = 0;
-            if ((instr & 0x7F) == JOP_TAILCALL) will_store = will_skip = 0; /* implicit return */
+            /* A tail call replaces its frame, so only the top frame can be parked on one (implicit return);
+             * a lower frame is continued by its callee's return like any other. */
+            if (is_top && (instr & 0x7F) == JOP_TAILCALL) will_store = will_skip = 0;
             if (will_store && (int32_t)((instr >> 8) & 0xFF) >= def->slotcount) {
                 janet_panic("fiber stackframe has invalid pc");
             }
